@@ -1,9 +1,9 @@
 SPECIFICATION GSpecM
 CONSTANTS
-  PRICE = {1, 3, 10}
+  PRICE <- GenPriceSigned
   QTY = {1, 2, 3}
   FEE = {0, 1, 2}
-  MARK = {1, 2, 5, 9}
+  MARK <- GenMarkSigned
   MaxFills = 99
   MaxLen = 14
 INVARIANT Emit
